@@ -50,3 +50,8 @@ pub assume_specification [i64::abs] (x: i64) -> (r: i64)
     ensures r == (if x < 0 { -x } else { x as int });
 pub assume_specification [i64::unsigned_abs] (x: i64) -> (r: u64)
     ensures r == (if x < 0 { -x } else { x as int });
+// Rust reference: `expr?` on Err(e) returns Err(From::from(e)).  Verus models the conversion by the uninterpreted relation
+// `spec_from`; this axiom ties it to the (verified) From impl's specification.
+pub broadcast axiom fn spec_from_is_from<T: core::convert::From<S>, S>(s: S, t: T)
+    requires #[trigger] vstd::std_specs::control_flow::spec_from::<T, S>(s, t), <T as vstd::std_specs::convert::FromSpec<S>>::obeys_from_spec()
+    ensures t == <T as vstd::std_specs::convert::FromSpec<S>>::from_spec(s);
